@@ -1092,8 +1092,20 @@ class Builtins:
     def apply_userfn(self, st, e, args):
         """A-USERFN: the result of applying user function e is a deterministic function of its argument"""
         X = self.X
-        if len(args) != 1:
+        if len(args) == 0:
             raise Unsupported("user function arity")
+        if len(args) > 1:
+            # several positional arguments: one datum that is an injective pairing of them
+            pair = z3.Function("datum_pair", core.Datum, core.Datum, core.Datum)
+            ds = []
+            for a in args:
+                if not (isinstance(a, VOpq) and a.tag == "datum"):
+                    raise Unsupported("user function arguments")
+                ds.append(a.t)
+            t = ds[0]
+            for d2 in ds[1:]:
+                t = pair(t, d2)
+            args = [VOpq(t, "datum")]
         arg = args[0]
         if isinstance(arg, VOpq) and arg.tag == "datum":
             d = arg.t
@@ -1554,7 +1566,7 @@ class Builtins:
             if name == "copy":
                 return [Res(st, st.alloc(o))]
         if isinstance(o, (CSet, LSet)):
-            if name in ("union", "issubset", "add"):
+            if name in ("union", "issubset", "add", "update", "issuperset"):
                 return loops.set_method(X, st, selfv, name, args)
         raise Unsupported(f"method {name} on {type(o).__name__}")
 
